@@ -13,6 +13,8 @@ CONSTANTS
   OblIdempotent = TRUE
   OblFence = TRUE
   OblP1Atomic = TRUE
+  OblLockQuery = TRUE
+  AllowReads = FALSE
   OblHonest = TRUE
   AllowXA = TRUE
   OblXATruthful = FALSE
